@@ -32,16 +32,27 @@ def app_valid(chk):
     chk.absorb(ex)
 
 
+def tail_shapes(chk):
+    return [c04.SHAPES[chk.tier][0], c04.SHAPES[chk.tier][2]] if chk.tier == 'quick' else c04.SHAPES[chk.tier]
+
+
 def run(chk):
-    app_valid(chk)
-    runmon.monitor_run(chk, chk.tier)
-    tailmon.monitor_tail(chk, [c04.SHAPES[chk.tier][0], c04.SHAPES[chk.tier][2]] if chk.tier == 'quick' else c04.SHAPES[chk.tier])
-    sutmon.monitor_ping(chk, 1, 1)
+    shapes = tail_shapes(chk)
+    parts = ['valid'] + runmon.parts(chk.tier) + ['tail:%d' % i for i in range(len(shapes))] + ['ping']
+    if not chk.parallel(os.path.abspath(__file__), parts, post_merge=runmon.post_merge):
+        if chk.want('valid'):
+            app_valid(chk)
+        if chk.want('run'):
+            runmon.monitor_run(chk, chk.tier)
+        if chk.want('tail'):
+            tailmon.monitor_tail(chk, [shapes[int(chk.part.split(':')[1])]] if (chk.part or '').startswith('tail:') else shapes)
+        if chk.want('ping'):
+            sutmon.monitor_ping(chk, 1, 1)
     keep = ('app-validity', 'invalid-apps-never-start', 'check-needs-consent', 'reboot-needs-consent', 'install-gated', 'ping-bookkeeping', 'run-explored')
-    chk.obligations = [o for o in chk.obligations if o.name in keep]
+    chk.obligations = [o for o in chk.obligations if o.name in keep or o.name.startswith('part:')]
     chk.bounds.update({'run loop iterations': 2, 'control requests': '1 (quick) / 2 (thorough)', 'pending polls per future': 1,
-                       'tail shapes (apps, response apps, results)': [list(s) for s in ([c04.SHAPES[chk.tier][0], c04.SHAPES[chk.tier][2]] if chk.tier == 'quick' else c04.SHAPES[chk.tier])]})
-    chk.assumptions += c04.TAIL_ASSUMPTIONS + [
+                       'tail shapes (apps, response apps, results)': [list(s) for s in tail_shapes(chk)]})
+    chk.assumptions += [a for a in c04.TAIL_ASSUMPTIONS if a not in chk.assumptions] + [
         'run / wait_for_reboot are executed with the real select! expansions; start_update_check and ping_omaha are events there (their bodies: C04/C06/C08); timers and the control channel may be pending once per future; select! arm order is explored (both permutations)',
         'the request parameters of every request of a check equal the policy\'s answer: run passes the answer to start_update_check (here), which passes it to perform_update_check (C08 exploration), whose builders all use it (install-gated obligation)',
     ]
